@@ -22,14 +22,26 @@ func (NopLog) Trace(string, ...interface{}) string                    { return "
 func (NopLog) Un(string)                                              {}
 func (NopLog) Debugf(string, ...interface{})                          {}
 func (NopLog) Infof(string, ...interface{})                           {}
-func (NopLog) Warnf(string, ...interface{})                           {}
-func (NopLog) Errorf(string, ...interface{})                          {}
+func (NopLog) Warnf(f string, _ ...interface{}) {
+	if strings.Contains(f, "buffer") || strings.Contains(f, "overrun") {
+		Drops++
+	}
+}
+func (NopLog) Errorf(f string, _ ...interface{}) {
+	if strings.Contains(f, "buffer") {
+		Drops++
+	}
+}
 func (NopLog) Fatalf(string, ...interface{})                          {}
 func (NopLog) ErrWarn(err error, _ string, _ ...interface{}) error    { return err }
 func (NopLog) ErrFatal(err error, _ string, _ ...interface{}) error   { return err }
 func (NopLog) Err(err error, _ string, _ ...interface{}) error        { return err }
 
 var Log logutil.Log = NopLog{}
+
+// Drops counts the "buffer full / overrun" messages the library logged in the current execution (reset by the
+// harness at the start of a run; one execution at a time per process; only read by oracles / vacuity counters).
+var Drops int
 
 // Pod builds a pod with the given key, resource version and labels ("k=v,k2=v2").
 func Pod(ns, name, rv, labels string) *corev1.Pod {
